@@ -60,7 +60,19 @@ class RowMask:
     def __array_function__(self, func, types, args, kwargs):
         if func is np.where and len(args) == 1:
             return (OnlyLen(self._count),)
+        if func is np.flatnonzero:
+            return OnlyLen(self._count)
+        if func in (np.count_nonzero, np.sum) and len(args) == 1 and not kwargs:
+            return self._count
         raise FrameViolation(f"classifier applied {getattr(func, '__name__', func)} to the row mask")
+
+    def sum(self, *a, **k):
+        if a or k:
+            raise FrameViolation("classifier summed the row mask along an axis")
+        return self._count
+
+    def nonzero(self):
+        return (OnlyLen(self._count),)
 
     def __getattr__(self, name):
         raise FrameViolation(f"classifier used .{name} of the row mask")
@@ -182,7 +194,9 @@ def frame_job(args):
         except Exception as e:
             why = f"raised {type(e).__name__}: {e}"
         ok = not why and len(set(ids)) == 1 and ids[0] == cid.get(orb)
-        out.append(("C06.classifier.frame", ok, f"frame:{n}:{orb}", f"n={n} orbit {orb} (graph {reps[orb]}): classifier on the (cnt, flags)-only stub -> {ids} {why}; filed id {cid.get(orb)}", rp))
+        # an operation the stub does not offer is NOT evidence of a wrong id: the frame argument is withdrawn (UNDECIDED); a wrong id on the stub is a violation
+        status = True if ok else (None if why.startswith("frame violation") else False)
+        out.append(("C06.classifier.frame", status, f"frame:{n}:{orb}", f"n={n} orbit {orb} (graph {reps[orb]}): classifier on the (cnt, flags)-only stub -> {ids} {why}; filed id {cid.get(orb)}", rp))
     return out
 
 
@@ -328,6 +342,10 @@ def run(ctx: core.Ctx):
             fam = ctx.family(famname, GROUND, "native (representation-hiding stub)")
             fam.exhaustive = True
             fam.domain = "the (cnt, flags) of every LC orbit representative, n = 2..6 (878), three row orders each"
+            if ok is None:
+                ctx.record(fam, UNKNOWN, rp if fam.total < 2 else None)
+                ctx.undecide(fam, what)
+                continue
             ctx.record(fam, PROVED if ok else REFUTED, rp if fam.total < 2 else None)
             if not ok:
                 ctx.violate(fam, key, what, rp)
